@@ -1,11 +1,17 @@
 import Gnmi.Model.Cache
+import Gnmi.Model.CacheX
+import Gnmi.Model.LatencyNames
 import Driver.Codec
 /-! `ca` component: the cache (`cache.Cache` with a recording `SetClient` callback). -/
 namespace Driver.CA
 open Gnmi Gnmi.Cache Driver
 
 structure St where
-  s : State := {}
+  /-- the cache with its latency objects (`Model/CacheX.lean`); `sx.s` is the `State` of `Model/Cache.lean` -/
+  sx : StateX := {}
+  /-- `encoding/json` lengths of the prefix / update messages the harness sent so far, keyed by
+  their canonical rendering (op `upd … <sizes>`, profile c15): what `updateSize` sums -/
+  sizes : List (String × Int) := []
 
 /-! ### parsing -/
 
@@ -189,8 +195,141 @@ def exec (s : State) (args : List String) : State × List Event × String :=
   | "par" :: _ => (s, [], "mon=ok")   -- parallel writers of one target beside the refresh: judged by the Go-side monitor only
   | _ => (s, [], "bad-op")
 
+/-! ### the wired cache (`Model/CacheX.lean`): latency windows, `UpdateSize` -/
+
+/-- Go's `encoding/json` string encoding (`json.Marshal`, HTML escaping on) -/
+def jsonStr (s : String) : String :=
+  let hex (n : Nat) : String := String.singleton ("0123456789abcdef".toList.getD n '0')
+  "\"" ++ String.join (s.toList.map (fun c =>
+    if c == '"' then "\\\"" else if c == '\\' then "\\\\"
+    else if c == '\n' then "\\n" else if c == '\r' then "\\r" else if c == '\t' then "\\t"
+    else if c.toNat == 8 then "\\b" else if c.toNat == 12 then "\\f"
+    else if c.toNat < 32 || c == '<' || c == '>' || c == '&' then
+      "\\u00" ++ hex (c.toNat / 16) ++ hex (c.toNat % 16)
+    else if c.toNat == 0x2028 then "\\u2028" else if c.toNat == 0x2029 then "\\u2029"
+    else String.singleton c)) ++ "\""
+
+/-- `json.Marshal` of the `*pb.Path` prefix `metaNoti` / `deleteNoti` build: `&pb.Path{Target: t}` -/
+def jsonTargetPrefix (target : String) : String :=
+  if target.isEmpty then "{}" else "{\"target\":" ++ jsonStr target ++ "}"
+
+/-- `json.Marshal` of the `*pb.Update` `metaNoti` builds: `Path{Elem: names}`, a bool / int / string value -/
+def jsonMetaUpdate (u : Upd) : String :=
+  let elems := u.path.map (fun e => if e.isEmpty then "{}" else "{\"name\":" ++ jsonStr e ++ "}")
+  let p := if elems.isEmpty then "{}" else "{\"elem\":[" ++ ",".intercalate elems ++ "]}"
+  let v := match u.val with
+    | .scalar (.bool b) => "{\"Value\":{\"BoolVal\":" ++ toString b ++ "}}"
+    | .scalar (.int i) => "{\"Value\":{\"IntVal\":" ++ toString i ++ "}}"
+    | .scalar (.str s) => "{\"Value\":{\"StringVal\":" ++ jsonStr s ++ "}}"
+    | _ => "{\"Value\":null}"
+  "{\"path\":" ++ p ++ ",\"val\":" ++ v ++ "}"
+
+/-- key of an update message in the size table: its canonical rendering stands for `proto.Equal`,
+which identifies `+0` and `-0`; their json renderings differ (`0`, `-0`), so the exact value token
+is part of the key -/
+def updSizeKey (u : Upd) : String := u.raw ++ "|" ++ renderVal u.val
+
+def lookSize (sizes : List (String × Int)) (raw : String) (dflt : Int) : Int :=
+  match sizes.find? (fun kv => kv.1 == raw) with
+  | some kv => kv.2
+  | none => dflt
+
+/-- `len(json.Marshal(n))` of a stored notification, `0` when `json.Marshal` fails (a NaN / Inf
+float somewhere: the harness sends `-1` for that message).  The framing of the
+`pb.Notification` struct (`timestamp`, `prefix`, `update`, `atomic`, all `omitempty`; a stored
+notification never carries deletes) is computed here; the lengths of the prefix and update
+messages come from the harness (`sizes`) or, for the notifications the cache builds itself
+(`metaNoti`), from `jsonTargetPrefix` / `jsonMetaUpdate`. -/
+def jsonSize (sizes : List (String × Int)) (n : Noti) : Int :=
+  let zp : Int := lookSize sizes n.praw ((jsonTargetPrefix n.target).utf8ByteSize : Nat)
+  let zus : List Int := n.upd.map (fun u => lookSize sizes (updSizeKey u) ((jsonMetaUpdate u).utf8ByteSize : Nat))
+  if decide (zp < 0) || zus.any (fun z => decide (z < 0)) then 0 else
+  let fields : List Int :=
+    (if n.ts == 0 then [] else [(12 : Int) + ((toString n.ts).length : Nat)]) ++
+    [9 + zp] ++
+    (if zus.isEmpty then [] else [9 + 2 + zus.foldl (· + ·) 0 + ((zus.length - 1 : Nat) : Int)]) ++
+    (if n.atomic then [(13 : Int)] else [])
+  2 + fields.foldl (· + ·) 0 + ((fields.length - 1 : Nat) : Int)
+
+def winStr (w : Int) : String := LatNames.toStr (LatNames.compactDurationString w)
+
+/-- `cache.WithLatencyWindows(ws, period)` + `WithAvgLatencyPrecision(prec)` from the token
+`<period>:<prec>:<w1>,<w2>,…` (all in ns; `-` = neither option): period `0` disables the windows,
+a window that is not a multiple of the period makes `WithLatencyWindows` fail (the harness then
+creates the cache without the option) -/
+def parseLatCfg (tok : String) : CfgX :=
+  match tok.splitOn ":" with
+  | [p, pr, ws] =>
+    let period := parseInt p
+    let prec := parseInt pr
+    let wl := if ws == "-" then [] else (ws.splitOn ",").map parseInt
+    let ok := period != 0 && wl.all (fun w => Latency.parseWindow w period == .ok)
+    { windows := if ok then wl else [], prec := if prec == 0 then none else some prec, winStr := winStr }
+  | _ => { winStr := winStr }
+
+/-- `Metadata()` of a target of the wired cache: the latency entries that are set are listed too -/
+def renderMetaX (x : CfgX) (t : Target) (l : LatSt) : String :=
+  let m := t.md
+  let ints := intNames.filterMap (fun n => (m.getInt n).map (fun v => n ++ "=" ++ toString v))
+  let lats := (latKeys x).filterMap (fun k =>
+    (Latency.exported l.vals k.1 k.2).map (fun v => latName x k.1 k.2 ++ "=" ++ toString v))
+  let bools := boolNames.filterMap (fun n => (m.getBool n).map (fun v => n ++ "=" ++ toString v))
+  let strs := strNames.filterMap (fun n => (m.getStr n).map (fun v => n ++ "=" ++ encStr v))
+  let sn := match t.serverName with
+    | some v => ["serverName=" ++ encStr v]
+    | none => []
+  bracket (sortStrs (ints ++ lats ++ bools ++ strs ++ sn))
+
+/-- one operation on the wired cache.  Operations that only read the `State` of
+`Model/Cache.lean` are answered by `exec`. -/
+def execX (st : St) (args : List String) : St × String :=
+  let sx := st.sx
+  match args with
+  | "new" :: thr :: ed :: excl :: rest =>
+      let sn := rest.headD "-"
+      let lw := (rest.drop 1).headD "-"
+      ({ sx := { s := { cfg := { futureThr := parseInt thr, eventDriven := ed == "1",
+                                  excluded := if excl == "-" then [] else (excl.splitOn ",").map decStr,
+                                  serverName := if sn == "-" then "" else decStr sn } },
+                 x := parseLatCfg lw } }, "ok")
+  | ["add", t] => ({ st with sx := sx.addWith (decStr t) }, "ok")
+  | ["remove", t, now] =>
+      let r := sx.remove (decStr t) (parseInt now); ({ st with sx := r.1 }, renderEventsSeq r.2)
+  | ["reset", t, now] =>
+      let r := sx.reset enc (decStr t) (parseInt now); ({ st with sx := r.1 }, renderEventsSorted r.2)
+  | ["sync", t, now] =>
+      let r := sx.sync enc (decStr t) (parseInt now); ({ st with sx := r.1 }, renderEventsSeq r.2)
+  | ["connect", t, now] =>
+      let r := sx.connect enc (decStr t) (parseInt now); ({ st with sx := r.1 }, renderEventsSeq r.2)
+  | ["connerr", t, msg, now] =>
+      let r := sx.connectError enc (decStr t) (decStr msg) (parseInt now)
+      ({ st with sx := r.1 }, renderEventsSeq r.2)
+  | "upd" :: now :: noti :: rest =>
+      let pn := parseNoti noti
+      -- optional 4th argument: json lengths `<prefix>,<update 1>,…` of the messages of this notification
+      let zs := match rest with
+        | [z] => (z.splitOn ",").map parseInt
+        | _ => []
+      let sizes := match zs with
+        | zp :: zus => st.sizes ++ [(pn.2.praw, zp)] ++ (pn.2.upd.map updSizeKey).zip zus
+        | [] => st.sizes
+      let r := sx.gnmiUpdate (parseInt now) pn.1 pn.2
+      if r.1 = .panic then ({ sx := r.2.1, sizes := sizes }, "panic")
+      else ({ sx := r.2.1, sizes := sizes }, renderRes r.1 ++ " " ++ renderGroups r.2.2)
+  | ["updmeta", now] =>
+      let r := sx.updateMetadata enc (parseInt now); ({ st with sx := r.1 }, renderEventsSorted r.2)
+  | ["updsize"] => ({ st with sx := sx.updateSize (jsonSize st.sizes) }, "ok")
+  | ["meta", t] =>
+      match sx.s.get (decStr t) with
+      | none => (st, "none")
+      | some tg => (st, renderMetaX sx.x tg (sx.latOf (decStr t)))
+  | _ =>
+      -- `updu`, `query`, `has`, `own`, `rr`, `par`: no latency call, no size; `updu` changes the state
+      let r := exec sx.s args
+      ({ st with sx := { sx with s := r.1 } }, r.2.2)
+
 def step (st : St) (args : List String) : St × String × String :=
-  let r := exec st.s args
-  ({ s := r.1 }, r.2.2, r.2.2)
+  let r := execX st args
+  (r.1, r.2, r.2)
 
 end Driver.CA
